@@ -1,6 +1,7 @@
 package main
 
 import (
+	"bytes"
 	"github.com/rminnich/go9p"
 	"github.com/rminnich/go9p/vs"
 	"fmt"
@@ -150,6 +151,9 @@ func c06MapMonitorScenarios(tier string) []Scenario {
 		if i < 4 {
 			out = append(out, c06PipelinedDependentsFirst("attach", sec, i%2 == 1, D))
 		}
+	}
+	for i, how := range []string{"removed-by-host", "renamed-by-another-fid", "replaced-by-other-kind", "made-unreadable-dir-emptied"} {
+		out = append(out, c06UfsStale(how, i%2 == 0))
 	}
 	for i, k := range []string{"readdir", "readfile", "stat", "walk"} {
 		out = append(out, c06BehindVersion(k, 300, 8216, i%2 == 0, D+1), c06BehindVersion(k, 8216, 300, i%2 == 1, D+1))
@@ -358,5 +362,145 @@ func c06BehindVersion(kind string, msize0, msize1 uint32, dotu bool, D int) Scen
 		base, root = scratchDir("c06")
 		defer os.RemoveAll(base)
 		return runVs(rc, &VsSpec{Name: name, Body: body, Check: check, P: D})
+	}}
+}
+
+// c06UfsStale: a fid whose file has changed under it - removed, renamed away, replaced
+// by something of another kind - by another fid of the client or by the host, after the
+// fid was opened and partly read. Every sequence of up to three further requests on the
+// stale fid: the server answers (with errors, mostly) and stays up.
+func c06UfsStale(how string, dotu bool) Scenario {
+	name := fmt.Sprintf("ufs stale fid (%s) dotu=%v: every sequence of <= 3 requests on it", how, dotu)
+	return Scenario{Name: name, Run: func(rc *RunCtx) *Result {
+		res := &Result{Exhaustive: true}
+		base, root := scratchDir("c06s")
+		defer os.RemoveAll(base)
+		wst := wire.Stat{Type: 0xFFFF, Dev: 0xFFFFFFFF, Qid: wire.Qid{Type: 0xFF, Vers: 0xFFFFFFFF, Path: ^uint64(0)}, Mode: 0xFFFFFFFF, Atime: 0xFFFFFFFF, Mtime: 0xFFFFFFFF, Length: ^uint64(0), NUid: 0xFFFFFFFF, NGid: 0xFFFFFFFF, NMuid: 0xFFFFFFFF}
+		reqs := []func() *wire.Msg{
+			func() *wire.Msg { return &wire.Msg{Type: wire.Tstat, Fid: 1} },
+			func() *wire.Msg { return &wire.Msg{Type: wire.Tread, Fid: 1, Offset: 0, Count: 200} },
+			func() *wire.Msg { return &wire.Msg{Type: wire.Tread, Fid: 1, Offset: 0, Count: 4000} },
+			func() *wire.Msg { return &wire.Msg{Type: wire.Tread, Fid: 1, Offset: 0, Count: 4000, Tag: 1} }, // marker: offset replaced by the last returned
+			func() *wire.Msg { return &wire.Msg{Type: wire.Tread, Fid: 1, Offset: 77, Count: 300} },
+			func() *wire.Msg { return &wire.Msg{Type: wire.Twrite, Fid: 1, Offset: 3, Data: []byte("xyz")} },
+			func() *wire.Msg { st := wst; st.Mode = 0640; return &wire.Msg{Type: wire.Twstat, Fid: 1, Stat: st} },
+			func() *wire.Msg { st := wst; st.Name = "again"; return &wire.Msg{Type: wire.Twstat, Fid: 1, Stat: st} },
+			func() *wire.Msg { return twalk(0, 1, 2) },
+			func() *wire.Msg { return twalk(0, 1, 2, "e1") },
+			func() *wire.Msg { return twalk(0, 1, 2, "..") },
+			func() *wire.Msg { return &wire.Msg{Type: wire.Tcreate, Fid: 1, Name: "n", Perm: 0644, Mode: 1} },
+		}
+		seen := map[string]bool{}
+		var seqs [][]int
+		for a := range reqs {
+			seqs = append(seqs, []int{a})
+			for b := range reqs {
+				seqs = append(seqs, []int{a, b})
+				for c := range reqs {
+					seqs = append(seqs, []int{a, b, c})
+				}
+			}
+		}
+		for _, target := range []string{"d", "f"} {
+			for _, seq := range seqs {
+				if rc.Expired() {
+					res.Exhaustive = false
+					res.CapHit = "internal deadline"
+					return res
+				}
+				os.RemoveAll(root)
+				os.MkdirAll(filepath.Join(root, "d", "sub"), 0o755)
+				for i := 0; i < 6; i++ {
+					os.WriteFile(filepath.Join(root, "d", fmt.Sprintf("e%d", i)), []byte("entry"), 0o644)
+				}
+				os.WriteFile(filepath.Join(root, "f"), bytes.Repeat([]byte("file contents "), 40), 0o644)
+				var bad string
+				body := func() {
+					h := newUfsH(root, 8216, dotu)
+					cl := h.Connect()
+					ver := "9P2000"
+					un := ""
+					if dotu {
+						ver = "9P2000.u"
+					} else {
+						un = go9p.OsUsers.Uid2User(os.Geteuid()).Name()
+					}
+					cl.Version(8216, ver)
+					tag := uint16(10)
+					rpc := func(m *wire.Msg) *wire.Msg { tag++; m.Tag = tag; return cl.Rpc(m) }
+					rpc(tattach(0, 0, wire.NOFID, un, uint32(os.Geteuid()), dotu))
+					rpc(twalk(0, 0, 1, target))
+					rpc(twalk(0, 0, 5, target))
+					rpc(&wire.Msg{Type: wire.Topen, Fid: 1, Mode: 0})
+					last := uint64(0)
+					if r := rpc(&wire.Msg{Type: wire.Tread, Fid: 1, Offset: 0, Count: 200}); r != nil && r.Type == wire.Rread {
+						last = uint64(len(r.Data))
+					}
+					p := filepath.Join(root, target)
+					switch how {
+					case "removed-by-host":
+						os.RemoveAll(p)
+					case "renamed-by-another-fid":
+						st := wst
+						st.Name = "elsewhere"
+						rpc(&wire.Msg{Type: wire.Twstat, Fid: 5, Stat: st})
+					case "replaced-by-other-kind":
+						os.RemoveAll(p)
+						if target == "d" {
+							os.WriteFile(p, []byte("now a file"), 0o644)
+						} else {
+							os.Mkdir(p, 0o755)
+						}
+					case "made-unreadable-dir-emptied":
+						if target == "d" {
+							ents, _ := os.ReadDir(p)
+							for _, e := range ents {
+								os.RemoveAll(filepath.Join(p, e.Name()))
+							}
+						} else {
+							os.Truncate(p, 0)
+						}
+					}
+					for _, i := range seq {
+						m := reqs[i]()
+						if m.Type == wire.Tread && m.Tag == 1 {
+							m.Offset = last
+						}
+						if r := rpc(m); r == nil {
+							bad = fmt.Sprintf("%s was never answered", m)
+							return
+						} else if r.Type == wire.Rread && m.Offset == 0 {
+							last = uint64(len(r.Data))
+						}
+					}
+					if r := rpc(&wire.Msg{Type: wire.Tstat, Fid: 0}); r == nil || r.Type != wire.Rstat {
+						bad = fmt.Sprintf("the connection no longer answers: %v", r)
+						return
+					}
+					c2 := h.Connect()
+					if r := c2.Version(8216, ver); r == nil || r.Type != wire.Rversion {
+						bad = "a new connection is not served"
+					}
+				}
+				x := vs.Run(nil, body, vs.Options{Horizon: 100000000})
+				res.Evals++
+				res.Nontrivial++
+				res.States++
+				res.Traces++
+				res.Transitions += int64(len(seq))
+				sig := ""
+				if len(x.Panics) > 0 {
+					sig = "C06/panic/" + x.Panics[0].Frame + "/" + panicClass(x.Panics[0].Value)
+					bad = "panic: " + x.Panics[0].Value + "\n" + trimStack(x.Panics[0].Stack)
+				} else if bad != "" {
+					sig = "C06/liveness/stale-fid/" + sigWords(bad)
+				}
+				if sig != "" && !seen[sig] && len(res.Findings) < 6 {
+					seen[sig] = true
+					res.Findings = append(res.Findings, Finding{Sig: sig, Msg: fmt.Sprintf("%s, fid on %q, requests %v: %s", name, target, seq, bad)})
+				}
+			}
+		}
+		return res
 	}}
 }
